@@ -502,3 +502,6 @@ def install(sess):
             sess.record("pre", "core.GroupBy._build_group_sorted_indexer_numba", "group_counts[g] == number of rows the kernel places into group g (otherwise it writes outside its block / past the end of the indexer)",
                         {"group_counts": np.asarray(group_counts).tolist(), "rows per group": per.tolist()})
     sess.wrap("groupby_lib.groupby.core", "GroupBy._build_group_sorted_indexer_numba", requires=pre_indexer)
+
+
+LEVEL_TEXT = 'Bounded only (object state is pandas/pyarrow). Per-operation contract (result == fresh result, abstract view unchanged, class invariant kept) evaluated on the real class for every operation of a 62-operation alphabet started from every state reachable by <= 1 (quick) / <= 2 (thorough) earlier operations of a history alphabet, on a designed set of key arrays covering the representation modes {contiguous; chunked with pointer tables; chunked unified in place; concatenated}, null placement and first-appearance orders; copy constructor and class-level call forms as operations. ROUND 3: a deductive part (P tier) decides one piece of the statement: the loop of _unify_group_key_chunks (local codes -> global codes through the pointer tables, null keys stay -1; loop extracted mechanically), count_ikey (the count cache) and _find_first_chunk_in_slice are proved to compute functions of the logical codes, the pointer tables and the mask alone - ASSUMED callee contracts listed in the evidence. The histories themselves remain bounded.'
